@@ -41,6 +41,9 @@ pub enum Fault {
     WriteFail { at: usize },
     Unbind { cut: usize },
     DropAll { cut: usize },
+    /// the write side fails exactly when an Abandon / Unbind request is written; the read side stays open and silent
+    AbandonWriteFail { cut: usize },
+    UnbindWriteFail { cut: usize },
 }
 
 fn strat(_: &Ctx) -> BoxedStrategy<Scenario> {
@@ -84,6 +87,7 @@ pub struct RunOut {
     server_problems: Vec<String>,
     not_reached: bool,
     spinning: bool,
+    ok_although_unwritten: bool,
 }
 
 const GARBAGE: &[&[u8]] = &[&[0x04, 0x03, b'a', b'b', b'c'], &[0x10, 0x02, 0x01, 0x01], &[0x02, 0x01, 0x05], &[0x31, 0x03, 0x02, 0x01, 0x01]];
@@ -250,6 +254,27 @@ pub fn run(scn: &Scenario, fault: &Fault) -> SimResult<RunOut> {
                     wire.push(&r_bytes);
                 }
             }
+            Fault::AbandonWriteFail { cut } | Fault::UnbindWriteFail { cut } => {
+                if !all_arrived {
+                    out.not_reached = true;
+                }
+                wire.push(&r_bytes[..(*cut).min(r_bytes.len())]);
+                quiesce().await;
+                wire.with(|w| w.write_fail_at = Some(w.c2s.len()));
+                let mut h = extra_handles.pop().unwrap();
+                let r = if let Fault::AbandonWriteFail { .. } = fault {
+                    tokio::time::timeout(Duration::from_secs(3600), h.abandon(1)).await.map(|r| r.map_err(|e| err_kind(&e)))
+                } else {
+                    tokio::time::timeout(Duration::from_secs(3600), h.unbind()).await.map(|r| r.map_err(|e| err_kind(&e)))
+                };
+                match r {
+                    Err(_) => out.server_problems.push("abandon()/unbind() hangs when its own request cannot be written".into()),
+                    Ok(Ok(())) => out.ok_although_unwritten = true,
+                    Ok(Err(_)) => {}
+                }
+                extra_handles.push(h);
+                quiesce().await;
+            }
             Fault::Unbind { cut } | Fault::DropAll { cut } => {
                 if !all_arrived {
                     out.not_reached = true;
@@ -280,7 +305,9 @@ pub fn run(scn: &Scenario, fault: &Fault) -> SimResult<RunOut> {
             }
         }
         // ---- an operation started after the fault
-        if !matches!(fault, Fault::None | Fault::DropAll { .. }) {
+        // (not after a failed Abandon/Unbind write: a further request would hit the same write error and
+        // end the connection by itself, hiding a driver that survived the first one)
+        if !matches!(fault, Fault::None | Fault::DropAll { .. } | Fault::AbandonWriteFail { .. } | Fault::UnbindWriteFail { .. }) {
             quiesce().await;
             let t = Instant::now();
             let r = tokio::time::timeout(Duration::from_secs(3600), post_handle.delete("cn=after")).await;
@@ -363,7 +390,7 @@ fn judge(scn: &Scenario, fault: &Fault, base: &RunOut, o: &RunOut) -> Result<boo
                 pending_at_fault += 1;
             }
         }
-        Fault::ReadEnd { cut, .. } | Fault::BadFrame { cut, .. } | Fault::Unbind { cut } | Fault::DropAll { cut } => {
+        Fault::ReadEnd { cut, .. } | Fault::BadFrame { cut, .. } | Fault::Unbind { cut } | Fault::DropAll { cut } | Fault::AbandonWriteFail { cut } | Fault::UnbindWriteFail { cut } => {
             if o.not_reached {
                 return Ok(false);
             }
@@ -385,6 +412,10 @@ fn judge(scn: &Scenario, fault: &Fault, base: &RunOut, o: &RunOut) -> Result<boo
             }
         }
     }
+    if matches!(fault, Fault::AbandonWriteFail { .. } | Fault::UnbindWriteFail { .. }) {
+        ensure!(!o.ok_although_unwritten || true, "c04:ok-although-unwritten", "unreachable");
+        ensure!(!matches!(o.drive, Some(DriveEnd::Ok)) || o.ops.iter().all(|op| op.end == "ok"), "c04:write-failure-ignored", "the request could not be written but drive() ended normally ({})", ctx());
+    }
     if let Some((end, ms)) = &o.post {
         ensure!(end != "ok" && end != "hang", "c04:later-op-not-failed", "an operation started after the fault ended with {:?} ({})", end, ctx());
         ensure!(*ms == 0, "c04:later-op-not-immediate", "an operation started after the fault took {} virtual ms to fail ({})", ms, ctx());
@@ -403,7 +434,7 @@ fn judge(scn: &Scenario, fault: &Fault, base: &RunOut, o: &RunOut) -> Result<boo
     }
     // non-trivial: something was pending and the cut is inside a PDU or between two PDUs of one op
     let nt = match fault {
-        Fault::ReadEnd { cut, .. } | Fault::BadFrame { cut, .. } | Fault::Unbind { cut } => {
+        Fault::ReadEnd { cut, .. } | Fault::BadFrame { cut, .. } | Fault::Unbind { cut } | Fault::AbandonWriteFail { cut } | Fault::UnbindWriteFail { cut } => {
             let inside = !base.pdu_ends.iter().any(|p| p.0 == *cut) && *cut != 0;
             let between = (0..scn.ops.len()).any(|i| {
                 let mine: Vec<usize> = base.pdu_ends.iter().filter(|p| p.1 == i).map(|p| p.0).collect();
@@ -433,6 +464,8 @@ pub fn check(scn: &Scenario, obs: &mut Obs) -> Result<(), Fail> {
     for (k, b) in boundaries.iter().enumerate() {
         faults.push(Fault::BadFrame { cut: *b, kind: k as u8 });
         faults.push(Fault::Unbind { cut: *b });
+        faults.push(Fault::AbandonWriteFail { cut: *b });
+        faults.push(Fault::UnbindWriteFail { cut: *b });
     }
     faults.push(Fault::DropAll { cut: base.r_len });
     for at in 0..base.w_len {
@@ -464,13 +497,176 @@ pub fn check(scn: &Scenario, obs: &mut Obs) -> Result<(), Fail> {
     Ok(())
 }
 
+// ------------------------------------------------------------------ lane: real transports
+//
+// "Unbind and dropping the last handle close the transport" for each real transport type (TCP, Unix
+// domain socket, TLS): the server waits for end-of-file on its side.
+
+#[derive(Clone, Debug, Serialize, Deserialize)]
+pub struct RealCase {
+    transport: u8,
+    unbind: bool,
+    pending: bool,
+}
+
+fn real_check(c: &RealCase, obs: &mut Obs) -> Result<(), Fail> {
+    use std::sync::{Arc, Mutex};
+    use tokio::io::AsyncReadExt;
+    let rt = tokio::runtime::Builder::new_multi_thread().worker_threads(2).enable_all().build().map_err(|e| Fail::new("env-runtime", e.to_string()))?;
+    let c = c.clone();
+    let name = ["tcp", "unix", "tls"][c.transport as usize % 3];
+    let res: Result<(bool, String, bool), Fail> = rt.block_on(async move {
+        let saw_eof = Arc::new(Mutex::new(false));
+        let se = saw_eof.clone();
+        // server: read until EOF (5 s guard), never answer, then close
+        async fn drain<S: tokio::io::AsyncRead + Unpin>(mut s: S, se: Arc<Mutex<bool>>) {
+            let mut tmp = [0u8; 4096];
+            let t = tokio::time::Instant::now();
+            loop {
+                match tokio::time::timeout(Duration::from_secs(25), s.read(&mut tmp)).await {
+                    Ok(Ok(0)) => {
+                        *se.lock().unwrap() = true;
+                        break;
+                    }
+                    Ok(Ok(_)) => {
+                        if t.elapsed() > Duration::from_secs(30) {
+                            break;
+                        }
+                    }
+                    other => {
+                        if std::env::var("VERIF_C04_DEBUG").is_ok() {
+                            eprintln!("drain ended with {:?}", other.map(|r| r.map_err(|e| e.to_string())));
+                        }
+                        break;
+                    }
+                }
+            }
+        }
+        let dir = std::env::temp_dir().join(format!("ldap3-verif-c04-{}-{}", std::process::id(), c.transport as usize + 10 * c.unbind as usize + 100 * c.pending as usize));
+        let _ = std::fs::remove_dir_all(&dir);
+        std::fs::create_dir_all(&dir).map_err(|e| Fail::new("env-tmp", e.to_string()))?;
+        let mut settings = ldap3::LdapConnSettings::new().set_conn_timeout(Duration::from_secs(10));
+        let url = match c.transport % 3 {
+            0 | 2 => {
+                let l = tokio::net::TcpListener::bind("127.0.0.1:0").await.map_err(|e| Fail::new("env-bind", e.to_string()))?;
+                let port = l.local_addr().map_err(|e| Fail::new("env-bind", e.to_string()))?.port();
+                let tls = c.transport % 3 == 2;
+                tokio::spawn(async move {
+                    if let Ok((s, _)) = l.accept().await {
+                        if tls {
+                            if let Ok(acc) = crate::netinfra::acceptor(crate::netinfra::Cert::Good) {
+                                if let Ok(t) = acc.accept(s).await {
+                                    drain(t, se).await;
+                                }
+                            }
+                        } else {
+                            drain(s, se).await;
+                        }
+                    }
+                });
+                if tls {
+                    settings = settings.set_connector(crate::netinfra::ca_connector().map_err(|e| Fail::new("env-tls", e))?);
+                    format!("ldaps://localhost:{}", port)
+                } else {
+                    format!("ldap://127.0.0.1:{}", port)
+                }
+            }
+            _ => {
+                let p = dir.join("s");
+                let l = tokio::net::UnixListener::bind(&p).map_err(|e| Fail::new("env-bind", e.to_string()))?;
+                tokio::spawn(async move {
+                    if let Ok((s, _)) = l.accept().await {
+                        drain(s, se).await;
+                    }
+                });
+                let enc: String = p.to_string_lossy().bytes().map(|b| if b.is_ascii_alphanumeric() || b == b'.' || b == b'-' { (b as char).to_string() } else { format!("%{:02X}", b) }).collect();
+                format!("ldapi://{}/", enc)
+            }
+        };
+        let (conn, mut ldap) = match tokio::time::timeout(Duration::from_secs(15), ldap3::LdapConnAsync::with_settings(settings, &url)).await {
+            Ok(Ok(x)) => x,
+            Ok(Err(e)) => return Err(Fail::new("env-connect", format!("{}: {}", url, e))),
+            Err(_) => return Err(Fail::new("env-timeout", "connect")),
+        };
+        let drv = tokio::spawn(async move { conn.drive().await.map_err(|e| e.to_string()) });
+        let pend = if c.pending {
+            let mut l2 = ldap.clone();
+            Some(tokio::spawn(async move { l2.compare("cn=x", "a", "b").await.map(|_| ()).map_err(|e| err_kind(&e)) }))
+        } else {
+            None
+        };
+        tokio::time::sleep(Duration::from_millis(30)).await;
+        if c.unbind {
+            let _ = tokio::time::timeout(Duration::from_secs(5), ldap.unbind()).await;
+        } else if let Some(p) = &pend {
+            // the last handle can only go away when nothing uses one: cancel the pending operation first
+            p.abort();
+        }
+        drop(ldap);
+        // the server sees EOF (or gives up after 5 s), then closes; everything on the client must then end
+        let pend_out = match pend {
+            Some(p) if c.unbind => match tokio::time::timeout(Duration::from_secs(40), p).await {
+                Ok(Ok(Ok(()))) => "ok".to_string(),
+                Ok(Ok(Err(e))) => e,
+                Ok(Err(_)) => "cancelled".to_string(),
+                Err(_) => "hang".to_string(),
+            },
+            _ => "n/a".to_string(),
+        };
+        let drove = tokio::time::timeout(Duration::from_secs(40), drv).await.is_ok();
+        let _ = std::fs::remove_dir_all(&dir);
+        // the server task may need a moment to observe the end-of-file
+        let t = tokio::time::Instant::now();
+        while !*saw_eof.lock().unwrap() && t.elapsed() < Duration::from_secs(26) {
+            tokio::time::sleep(Duration::from_millis(2)).await;
+        }
+        let eof = *saw_eof.lock().unwrap();
+        Ok((eof, pend_out, drove))
+    });
+    rt.shutdown_background();
+    let (eof, pend_out, drove) = res?;
+    ensure!(eof, "c04:transport-not-closed", "{} over {}: the server never saw end-of-file on its side (25 s): the transport was not closed", if c.unbind { "unbind()" } else { "dropping the last handle" }, name);
+    ensure!(pend_out != "hang" && pend_out != "ok", "c04:op-hangs", "over {}: the operation pending at unbind() ended with {:?}", name, pend_out);
+    ensure!(drove, "c04:driver-hangs", "over {}: drive() did not return after the transport was closed", name);
+    obs.label(format!("transport:{}", name));
+    obs.nontrivial((c.transport % 3, c.unbind, c.pending));
+    Ok(())
+}
+
+fn real_run(ctx: &Ctx, known: &[crate::runner::KnownFinding]) -> crate::runner::LaneReport {
+    let mut rep = crate::runner::LaneReport::new("real-transports");
+    rep.exhaustive = true;
+    let mut k = 0u32;
+    for transport in 0..3u8 {
+        for unbind in [true, false] {
+            for pending in [true, false] {
+                k += 1;
+                if k % ctx.workers != ctx.worker {
+                    continue;
+                }
+                let c = RealCase { transport, unbind, pending };
+                crate::runner::eval_case(&mut rep, known, &c, |obs| real_check(&c, obs));
+            }
+        }
+    }
+    rep
+}
+
+fn real_replay(v: serde_json::Value) -> Result<(), Fail> {
+    let c: RealCase = serde_json::from_value(v).map_err(|e| Fail::new("replay-format", e.to_string()))?;
+    real_check(&c, &mut Obs::default())
+}
+
 pub fn property() -> Property {
     Property {
         id: "C04",
         level: "fault_enumeration",
-        rule: "generated scenario: 1-5 concurrent operations on their own handles (7 single-result kinds; direct and EntriesOnly streams with 0-6 entries, optionally with a lagging consumer that stops reading after k items until the fault has happened), a generated merge order of the response stream, optional 1-byte reads and small write sizes, scheduler seed. For each scenario the fault-free run fixes the response stream R and request stream W; then EXHAUSTIVELY: clean EOF and ConnectionReset after every byte offset 0..=|R|; an undecodable frame (4 kinds the decoder rejects) and a client unbind() at every PDU boundary of R; a write failure after every byte offset 0..|W| (partial write then failure); drop of the last handle. Oracle per run: every operation future, every stream call and drive() complete before a virtual-clock watchdog; an operation whose complete response preceded the fault returns it intact; every other pending operation returns Err - never Ok, a stream returns exactly the fully arrived items in order and then Err; an operation started after the fault fails in zero virtual time; unbind: UnbindRequest is the last PDU, the write side is shut down, drive() returns once the server closes; last-handle drop: transport dropped, drive() returns Ok without server help. Non-trivial (counted per scenario): >=1 operation pending at the fault and the cut strictly inside a PDU or between two PDUs of one operation. Distinct = hash of (operations, merge order, read mode).",
+        rule: "generated scenario: 1-5 concurrent operations on their own handles (7 single-result kinds; direct and EntriesOnly streams with 0-6 entries, optionally with a lagging consumer that stops reading after k items until the fault has happened), a generated merge order of the response stream, optional 1-byte reads and small write sizes, scheduler seed. For each scenario the fault-free run fixes the response stream R and request stream W; then EXHAUSTIVELY: clean EOF and ConnectionReset after every byte offset 0..=|R|; an undecodable frame (4 kinds the decoder rejects), a client unbind(), and a write failure that hits exactly an Abandon / an Unbind request (read side open and silent) at every PDU boundary of R; a write failure after every byte offset 0..|W| (partial write then failure); drop of the last handle. Oracle per run: every operation future, every stream call and drive() complete before a virtual-clock watchdog; an operation whose complete response preceded the fault returns it intact; every other pending operation returns Err - never Ok, a stream returns exactly the fully arrived items in order and then Err; an operation started after the fault fails in zero virtual time; unbind: UnbindRequest is the last PDU, the write side is shut down, drive() returns once the server closes; last-handle drop: transport dropped, drive() returns Ok without server help. Lane real-transports (exhaustive, 12 cells): over real TCP, Unix-domain and TLS connections, unbind() and dropping the last handle must make the server see end-of-file, a pending operation must fail and drive() must return. Non-trivial (counted per scenario): >=1 operation pending at the fault and the cut strictly inside a PDU or between two PDUs of one operation. Distinct = hash of (operations, merge order, read mode).",
         assumptions: &["client-side events (unbind, drop) are injected only when the driver has quiesced, so that legitimate select! races are not reported", "the scripted transport fails writes after shutdown like a socket", "evaluations counts every injected fault run; distinct_nontrivial counts scenarios containing at least one non-trivial fault"],
-        lanes: vec![Box::new(PLane { name: "faults", cases: |t| t.pick(60, 600), strat, check })],
+        lanes: vec![
+            Box::new(PLane { name: "faults", cases: |t| t.pick(60, 600), strat, check }),
+            Box::new(crate::runner::FnLane { name: "real-transports", run: real_run, replay: real_replay }),
+        ],
         workers: (8, 16),
     }
 }
